@@ -20,7 +20,7 @@ func init() {
 		ID: "C01",
 		Meta: func(tier string) fw.Meta {
 			return fw.Meta{
-				Flavours: []string{"plain", "cover"},
+				Flavours: []string{"plain", "race", "cover"},
 				Blocks:   32,
 				Procs:    16,
 				Rule: "(i) rebuild sweep (seed-independent): the delete-side whole-tree rebuild is forced to run at exactly size s for every s <= 400 (2500 thorough) and for 2^k-3..2^k+3, k <= 13 (16), and the contents are compared afterwards; (ii) case = (beta, comparator granularity incl. comparators that return differences instead of -1/0/+1, bulk-New keys, phase-structured history of Add/Replace/Remove/Clear/Clone over up to 3 live trees). " +
@@ -28,7 +28,7 @@ func init() {
 					"After EVERY call: Len, IsEmpty, Min, Max, full Inorder (with stored tags), Inorder early stop, Get for all/sampled keys, InorderAfter for sampled keys with early stop. " +
 					"beta: quick uses {0,1,2,50,100,250,500,750,999,1000}; thorough additionally sweeps every beta in 0..1000. " +
 					"distinct = hash of (beta, div, every op with its key); non-trivial = the history contained a scapegoat rebuild on insert, a delete-side whole rebuild, or a two-child removal (detected from the tree shape read through Root/Left/Right)",
-				Required:     []string{"insert_rebuilds", "delete_rebuilds", "two_child_removals", "new_with_duplicates", "clones", "replace_existing", "steps", "histories_with_wide_comparator", "rebuilds_at_exact_size"},
+				Required:     []string{"insert_rebuilds", "delete_rebuilds", "two_child_removals", "new_with_duplicates", "clones", "replace_existing", "steps", "histories_with_wide_comparator", "rebuilds_at_exact_size", "clone_worker_rounds"},
 				Assumptions:  []string{"reference model: sorted slice with textbook set semantics", "tree shape for reach counters is read through stree.Cursor (checked separately by C03)"},
 				CoverPkgs:    []string{"github.com/creachadair/mds/stree"},
 				CoverAnchors: []string{"stree/stree.go", "stree/node.go"},
@@ -398,6 +398,21 @@ func c01rebuildSweep(c *fw.Ctx, base int) {
 }
 
 func runC01(c *fw.Ctx) {
+	// trees cloned from one prototype, each used by its own goroutine only
+	for k := 0; k < c.Pick(2, 12); k++ {
+		if !c.Begin(1<<22 + k) {
+			continue
+		}
+		r := c.Rng()
+		beta := []int{0, 100, 250, 500, 900}[r.IntN(5)]
+		if msg := cloneWorkers(beta, r.Uint64(), []int{0, 0, 5, 40}[r.IntN(4)], false, c.Step); msg != "" {
+			c.Fail(map[string]any{"phase": "8 goroutines, each working on its own Clone of one prototype tree", "beta": beta}, "%s", msg)
+		}
+		c.Add("clone_worker_rounds", 1)
+	}
+	if c.Flavour == "race" {
+		return
+	}
 	c01rebuildSweep(c, 1<<20)
 	betas := []int{0, 1, 2, 50, 100, 250, 500, 750, 999, 1000}
 	ncases := c.Pick(110, 900)
